@@ -23,6 +23,7 @@ TEXT = {
     'C12': ('proof', 'each block proved exact on its documented domain: packed-pair find, Rabin-Karp search and constructors, Two-Way forward/reverse incl. completeness (critical-factorisation theorem), Shift-Or bit-parallel automaton; constructors reporting unsupported inputs by None', '5 C12'),
     'C14': ('proof', 'every debug_assert (X3), assert (X4, pinned both ways), index, slice range, subtraction, shift, unwrap and loop termination in the extracted units is an obligation discharged by Verus', '5 C14'),
     'C16': ('proof', 'Finder::find / FinderRev::rfind postconditions determine the result from (needle, haystack) for every call; needle(), as_ref, into_owned (finders and iterators) proved to preserve needle, searcher and iteration state', '5 C16'),
+    'C17': ('proof', 'heap allocation is modelled as a permission: the allocating std constructors the crate calls are redirected (rule X16) to wrappers requiring the uninterpreted fact may_alloc(); Verus verifies every function of the crate WITHOUT that permission except the owning conversions (into_owned) and the Shift-Or constructor, which declare it, so no other function can reach an allocator; a token scan covers allocating constructs the rule does not model and the replayer counts allocations concretely when the verifier is undecided', '5 C17'),
     'C18': ('proof', 'is_equal_raw/is_equal/is_prefix/is_suffix proved equal to slice comparison with every read inside the given ranges', '5 C18'),
     'C19': ('proof', 'Pair::with_ranker proved for every ranker (generic R), Pair::new, with_indices, accessors, finder constructors / pair / min_haystack_len proved', '5 C19'),
 }
